@@ -276,8 +276,19 @@ def crdt_steps(tier, typ_codes=4):
     step = st.one_of(
         st.tuples(st.sampled_from(["op", "op", "op2"]), st.integers(0, 3), st.integers(0, 5), st.integers(0, 40)),
         st.tuples(st.sampled_from(["m", "m", "md"]), st.integers(0, 3), st.integers(0, 3), st.just(0)),
+        st.tuples(st.sampled_from(["m", "md", "snap", "rs", "rs"]), st.integers(0, 3), st.integers(0, 3), st.just(0)),
     ).map(list)
     return st.lists(step, min_size=1, max_size=40 if big else 18)
+
+
+def restart_steps(tier):
+    """crash/restart shape: replica i works and gossips to j, (optionally persists in between,) restarts from its last
+    snapshot, catches up from j, works again and gossips; random steps around it"""
+    opi = st.tuples(st.sampled_from(["op", "op", "op2"]), st.just(0), st.integers(0, 5), st.integers(0, 40)).map(list)
+    mid = st.lists(st.one_of(opi, st.just(["snap", 0, 0, 0]), st.just(["m", 1, 0, 0]), st.just(["md", 1, 0, 0])), min_size=1, max_size=5)
+    after = st.lists(st.one_of(opi, st.just(["m", 1, 0, 0]), st.just(["m", 0, 1, 0])), min_size=1, max_size=4)
+    return st.tuples(mid, after, crdt_steps(tier)).map(
+        lambda t: t[0] + [["m", 1, 0, 0], ["rs", 0, 0, 0], ["m", 0, 1, 0]] + t[1] + [["m", 1, 0, 0]] + t[2][:4])
 
 
 def crdt_strategy(types):
@@ -286,7 +297,7 @@ def crdt_strategy(types):
             "type": st.sampled_from(types),
             "n": st.integers(2, 4),
             "nelem": st.integers(1, 3),
-            "steps": crdt_steps(tier),
+            "steps": st.one_of(crdt_steps(tier), crdt_steps(tier), crdt_steps(tier), restart_steps(tier)),
             "law": st.lists(st.integers(0, 3), min_size=3, max_size=3),
         })
     return s
@@ -312,7 +323,15 @@ def run_crdt(case, obl, safe=False):
     seen = set()
     stats = {"rm": 0, "rm_skipped": 0, "merge_after_rm": set(), "ops": 0, "merges": 0, "dup_ts": 0}
 
+    reuse = {"tag": None}                      # first own tag an OR-set replica minted twice (after a restart)
+    minted = [set() for _ in range(n)]
+
     def add(sig, detail):
+        if typ == "or" and reuse["tag"] is not None:
+            # root cause class: a restarted replica handed out a tag it had already used; everything that goes wrong with
+            # that OR-set history afterwards is filed under it
+            sig = f"{P}/{obl}/orset-tag-reused-after-restore/" + sig[len(f"{P}/{obl}/"):]
+            detail = f"[tag {reuse['tag']} minted twice] {detail}"
         if sig not in seen:
             seen.add(sig)
             r.add(sig, detail)
@@ -356,12 +375,48 @@ def run_crdt(case, obl, safe=False):
         add(f"{P}/{obl}/same-updates-unequal/{typ}",
             f"{what}: r{i}={a.to_dict()} r{j}={b.to_dict()} received the same updates but are not equal")
 
+    issuer = []                                  # op id -> replica that issued it
+    snaps = [(reps[i].to_dict(), frozenset()) for i in range(n)]     # last persisted state of each replica (initially empty)
+    stats.update(restores=0, stale_restores=0, own_op_deferred=0, minted_after_restore=False)
+    restored = [False] * n
+
+    def may_mint(i):
+        """A replica that was rolled back must first re-learn (by merging) every op it issued that some peer still
+        knows before it issues new ones under the same node id; otherwise its per-node slot / tag sequence would fork -
+        that is a usage error of any state-based CRDT, not a library defect."""
+        return all(j in K[i] for q in range(n) if q != i for j in K[q] if issuer[j] == i)
+
     for sidx, s in enumerate(case.get("steps") or []):
         kind, i, a, b = (list(s) + [0, 0, 0, 0])[:4]
         i = int(i) % n
         a, b = int(a), int(b)
+        if kind == "snap":
+            snaps[i] = (reps[i].to_dict(), frozenset(K[i]))
+            continue
+        if kind == "rs":
+            # crash + restart of replica i from its last persisted snapshot: from_dict of a state the replica itself
+            # produced; its knowledge rolls back to the snapshot's
+            stats["restores"] += 1
+            if snaps[i][1] != K[i]:
+                stats["stale_restores"] += 1
+            reps[i] = cls.from_dict(copy.deepcopy(snaps[i][0]))
+            K[i] = set(snaps[i][1])
+            restored[i] = True
+            check_value(i, f"step {sidx} restore r{i}")
+            for p in range(n):
+                for q in range(p + 1, n):
+                    if K[p] == K[q]:
+                        check_equal(p, q, f"after step {sidx}")
+            continue
         if kind in ("op", "op2"):
+            mints = typ in ("g", "pn") or (typ == "or" and kind == "op")
+            if mints and not may_mint(i):
+                stats["own_op_deferred"] += 1
+                continue
+            if mints and restored[i]:
+                stats["minted_after_restore"] = True
             stats["ops"] += 1
+            n_before = len(spec.ops)
             if typ == "g" or (typ == "pn" and kind == "op"):
                 amt = a % 3 + 1
                 if amt == 1 and b % 2 == 0:
@@ -385,6 +440,13 @@ def run_crdt(case, obl, safe=False):
             else:
                 e = ELEMS[a % nelem]
                 if kind == "op":
+                    tag = (ids[i], reps[i].to_dict().get("seq"))
+                    if tag in minted[i] and safe:
+                        stats["own_op_deferred"] += 1      # restricted domain: an add that would re-use a tag is not issued
+                        continue
+                    if tag in minted[i] and reuse["tag"] is None:
+                        reuse["tag"] = tag
+                    minted[i].add(tag)
                     reps[i].add(e)
                     K[i].add(spec.new(("add", e)))
                 else:
@@ -397,6 +459,7 @@ def run_crdt(case, obl, safe=False):
                     stats["rm"] += 1
                     reps[i].remove(e)
                     K[i].add(spec.new(("rm", e, obs)))
+            issuer.extend([i] * (len(spec.ops) - len(issuer)))
             check_value(i, f"step {sidx} {kind}")
         else:
             j = a % n
@@ -466,7 +529,12 @@ def run_crdt(case, obl, safe=False):
         r.nontrivial = stats["rm"] >= 1 and both_dir
     else:
         r.nontrivial = stats["merges"] >= 2 and stats["ops"] >= 2 and sum(1 for k in K if k) >= 2
-    r.labels += [f"t-{typ}", f"rm-{min(stats['rm'], 2)}", "merge-after-rm-both" if both_dir else "no-both-dir"]
+    if stats["stale_restores"] and stats["merges"] >= 1:
+        r.nontrivial = True
+    r.labels += [f"t-{typ}", f"rm-{min(stats['rm'], 2)}", "merge-after-rm-both" if both_dir else "no-both-dir",
+                 "stale-restore" if stats["stale_restores"] else ("restore" if stats["restores"] else "no-restore"),
+                 "minted-after-restore" if stats["minted_after_restore"] else "no-mint-after-restore",
+                 "tag-reused" if reuse["tag"] is not None else "no-tag-reuse"]
     if safe:
         r.labels.append(f"rm-skipped-{min(stats['rm_skipped'], 2)}")
     return r
@@ -517,7 +585,31 @@ def _enum_cases(types, L1, L2):
                     yield {"type": "or", "n": 2, "nelem": 2, "steps": [list(s) for s in seq], "law": [0, 1, 0]}
 
 
+def _enum_restore_cases(types, L):
+    """as _enum_cases (1 element) plus 'persist replica 0' / 'restart replica 0 from its last snapshot'; only sequences
+    containing a restart (the others are covered by _enum_cases)"""
+    for typ in types:
+        if typ == "g":
+            alpha = [["op", 0, 0, 0], ["op", 1, 0, 0], ["m", 0, 1, 0], ["m", 1, 0, 0]]
+        elif typ in ("pn", "or"):
+            alpha = [["op", 0, 0, 0], ["op", 1, 0, 0], ["op2", 0, 0, 0], ["op2", 1, 0, 0], ["m", 0, 1, 0], ["m", 1, 0, 0]]
+        else:
+            continue
+        alpha = alpha + [["snap", 0, 0, 0], ["rs", 0, 0, 0]]
+        for length in range(2, L + 1):
+            for seq in itertools.product(alpha, repeat=length):
+                if not any(x[0] == "rs" for x in seq[1:]):
+                    continue
+                yield {"type": typ, "n": 2, "nelem": 1, "steps": [list(x) for x in seq], "law": [0, 1, 0]}
+
+
 def crdt_enum(tier):
+    if tier == "thorough":
+        return itertools.chain(_enum_cases(TYPES, 6, 5), _enum_restore_cases(TYPES, 6))
+    return itertools.chain(_enum_cases(TYPES, 5, 3), _enum_restore_cases(TYPES, 5))
+
+
+def _old_crdt_enum(tier):
     return _enum_cases(TYPES, 6, 5) if tier == "thorough" else _enum_cases(TYPES, 5, 3)
 
 
